@@ -6,7 +6,9 @@
     builtinJSONParse               json.Unmarshal into jsonValue (UnmarshalJSON: objects become ordered
                                    []jsonMember, number tokens are converted with ParseFloat ignoring
                                    ErrRange), then builtinJSONParseWalk: arrays -> newArrayOf, objects ->
-                                   members `put` in text order
+                                   members created with defineProperty (0o111) in text order; the wrapper
+                                   property "" (reviver, stringify) is created the same way, so nothing
+                                   inherited from Object.prototype can intercept
     builtinJSONReviveWalk (l.42)   reviver walk: arrays by index, objects through the LIVE propertyOrder slice
     builtinJSONStringify (l.109)   replacer array -> propertyList (l.114-142), space -> gap (l.148-174),
                                    wrapper holder, builtinJSONStringifyWalk (l.195) into Go values,
@@ -584,38 +586,6 @@ end
 /-- JSON.parse(text, reviver) for the parsed value `v` whose object properties are in the order
     given (l.34-38: wrapper object with the empty key) -/
 def reviveTop (f : Reviver) (fuel : Nat) (v : RV) : Option RV × List Str := reviveM f fuel [] v
-
-/-! ### inherited properties in the way (`put` instead of [[DefineOwnProperty]])
-
-    builtinJSONParseWalk creates the members of an object with `obj.put(name, value, false)`, and both
-    JSON.parse (with a reviver) and JSON.stringify create the wrapper's property "" with `put`.  `put` is
-    ES5 [[Put]]: when Object.prototype holds an accessor or a read-only data property of that name no own
-    property is created (the setter runs, or nothing happens).  `blocked` lists such names; `inherited`
-    is what a later `get` of the name then returns. -/
-
-structure ProtoEnv where
-  blocked : List Str
-  inherited : RV
-
-mutual
-def dropBlocked (b : List Str) : JV → JV
-  | .arr l => .arr (dropBlockedL b l)
-  | .obj m => .obj (dropBlockedM b m)
-  | v => v
-def dropBlockedL (b : List Str) : JVs → JVs
-  | .nil => .nil
-  | .cons v t => .cons (dropBlocked b v) (dropBlockedL b t)
-def dropBlockedM (b : List Str) : JMs → JMs
-  | .nil => .nil
-  | .cons k v t => if b.contains k then dropBlockedM b t else .cons k (dropBlocked b v) (dropBlockedM b t)
-end
-
-/-- JSON.parse(text) in a runtime whose Object.prototype blocks the names `E.blocked` -/
-def jsonParseEnv (E : ProtoEnv) (text : Str) : Option JV :=
-  (jsonParse text).map (dropBlocked E.blocked)
-
-/-- what `holder.get("")` gives after `holder.put("", v)` -/
-def wrapperGet (E : ProtoEnv) (v : RV) : RV := if E.blocked.contains [] then E.inherited else v
 
 /-! ### Go's encoder -/
 
